@@ -345,7 +345,7 @@ func runC14(env core.Env, rep *core.Report) {
 	wire.SetLimits(c14Limit)
 	maxPayload := uint64(2 * 1024 * 1024)
 	rep.Rule = "one evaluation = one encode/decode round trip of one message shape under one protocol version, or one decode of one mutated frame; non-trivial = a boundary field value / limit-size list, or any mutated frame; distinct by (kind, shape, version) or (seed frame, mutation)"
-	rep.Bound = "[round trip: 16 kinds x shapes (counts 0,1,2,limit; limit+1 must be refused; each scalar over its boundary alphabet) x protocol versions {70013,70012,70011,70002,70001,60002,60001,60000,31402,31401,209} (every version at which an encoding changes and its predecessor; fields a version does not carry must come back as zero, messages a version does not know must be refused)] [hostile: for every seed frame with <=2 elements: every single-bit flip of the frame, every truncation, 8 length-field values, every payload bit flip / truncation / varint splice at every position with recomputed checksum, one splice per ordered pair of kinds at every cut, wrong magic, bad checksum, unknown and invalid-UTF-8 command] [thorough adds: every value of every payload byte, every pair of payload bit flips (payloads <= 96 bytes), splices at every pair of cuts]"
+	rep.Bound = "[round trip: 16 kinds x shapes (counts 0,1,2,limit; limit+1 must be refused; each scalar over its boundary alphabet) x protocol versions {70013,70012,70011,70002,70001,60002,60001,60000,31402,31401,209} (every version at which an encoding changes and its predecessor; fields a version does not carry must come back as zero, a message may be refused only below the version that introduced it)] [hostile: for every seed frame with <=2 elements: every single-bit flip of the frame, every truncation, 8 length-field values, every payload bit flip / truncation / varint splice at every position with recomputed checksum, one splice per ordered pair of kinds at every cut, wrong magic, bad checksum, unknown and invalid-UTF-8 command] [thorough adds: every value of every payload byte, every pair of payload bit flips (payloads <= 96 bytes), splices at every pair of cuts]"
 	progress, _ := os.OpenFile(env.Out+".progress", os.O_CREATE|os.O_RDWR, 0o644)
 	mark := func(s string) {
 		if progress != nil {
@@ -385,10 +385,8 @@ func runC14(env core.Env, rep *core.Report) {
 				}
 				continue
 			}
-			if pver < minPver[s.Kind] {
-				viol("encode.accepted_before_version/"+s.Kind, fmt.Sprintf("%s pver %d: the message does not exist at that protocol version, the encoder must refuse it", s.Kind, pver), rp, "error", fmt.Sprintf("%d bytes", len(frame)))
-				continue
-			}
+			// (an encoder that accepts a message below its version is not judged by itself: what it
+			// wrote must then round-trip like any other frame)
 			if s.Desc != "" && s.Desc != "base" {
 				rep.DistinctNontrivial++
 			}
